@@ -1310,7 +1310,14 @@ namespace bloch::compiler {
 
         if (match(TokenType::LParen)) {
             const Token& lparen = previous();
-            if (isTypeAhead()) {
+            // Only primitive types can be cast targets; an identifier after '(' always starts a
+            // parenthesised expression (e.g. '(a < b > c)' is not 'Type<...> name').
+            bool castAhead = check(TokenType::Void) || check(TokenType::Int) ||
+                             check(TokenType::Float) || check(TokenType::Long) ||
+                             check(TokenType::Char) || check(TokenType::String) ||
+                             check(TokenType::Bit) || check(TokenType::Qubit) ||
+                             check(TokenType::Boolean);
+            if (castAhead) {
                 std::unique_ptr<Type> targetType = parseType();
                 (void)expect(TokenType::RParen, "Expected ')' after type in cast expression");
                 std::unique_ptr<Expression> operand = parseUnary();
